@@ -19,7 +19,7 @@ import (
 
 func init() {
 	sim.Register(&sim.Prop{
-		ID: "C14", Run: runC14, QuickRuns: 15000, ThoroughRuns: 300000, RaceQuick: 2000, RaceThorough: 40000, FineQuick: 2000, FineThorough: 40000,
+		ID: "C14", Run: runC14, QuickRuns: 15000, ThoroughRuns: 800000, RaceQuick: 2000, RaceThorough: 80000, FineQuick: 2000, FineThorough: 80000,
 		Rule:        "Each run: 2..8 tasks, each a state machine running 1..5 create/use/release cycles of one kind of instance (BufferWriter+DefaultWriter->Sink, BufferReader+DefaultReader<-Source, the three skip decoders, TTHeader encode/decode stream- and bytes-backed, buffer decodes with the span cache on, FastMarshal/FastRead of the shipped structs, Get on a shared loaded StrMap and Str2Str) with payloads keyed by (task, cycle). Pass 1 executes every task alone and records its observable results; pass 2 re-executes the same tasks with exactly the same decisions under the seeded scheduler (switches at allocator calls, source reads, sink writes and step boundaries) and compares each task's results with its solo execution; the allocator ledger/fence watches buffer ownership. The same tapes run in the -race build, where the scheduler's hand-off is invisible to the race detector, so unsynchronised sharing is reported whatever the interleaving was.",
 		Components:  realComponents,
 		Probes:      []string{"cross_task_buffer_reuse", "switch_at_free", "switch_at_sink_write", "switch_at_source_read", "pool_flush_in_flight", "span_cache_on"},
